@@ -93,7 +93,7 @@ NB(ch) == Len(ch[1]) * Len(ch[2]) * Len(ch[3])
 BlockSet(ch) == (1..Len(ch[1])) \X (1..Len(ch[2])) \X (1..Len(ch[3]))
 Rank(ch, b) == ((b[1] - 1) * Len(ch[2]) + (b[2] - 1)) * Len(ch[3]) + b[3]
 UnRank(ch, n) == LET m == n - 1  n3 == Len(ch[3])  n2 == Len(ch[2])
-                 IN <<m \div (n2 * n3) + 1, (m \div n3) % n2 + 1, m % n3 + 1>>
+                 IN <<(m \div (n2 * n3)) + 1, ((m \div n3) % n2) + 1, (m % n3) + 1>>
 BSh(ch, b) == <<ch[1][b[1]], ch[2][b[2]], ch[3][b[3]]>>
 BOff(ch, b) == <<Offs(ch[1])[b[1]], Offs(ch[2])[b[2]], Offs(ch[3])[b[3]]>>
 Idx(sh) == (0..(sh[1] - 1)) \X (0..(sh[2] - 1)) \X (0..(sh[3] - 1))
@@ -288,7 +288,7 @@ IncohRule(s, d0, dl) ==
       tb == UNION {{x - d[c] : x \in Bounds(ich[1])} : c \in 1..C}
       oc == Cut(tb, nout)
       och == <<oc, Ones(C), ich[3]>>
-  IN Rule(nout >= 1, <<nout, C, s.sh[3]>>, och,
+  IN Rule(TRUE, <<nout, C, s.sh[3]>>, och,
           Rec("incoh", Par("", d, <<>>), <<>>), <<>>,
           [bo \in BlockSet(och) |->
              LET c == bo[2]
@@ -340,7 +340,7 @@ StftRule(s, n) ==
       nseg == s.sh[1] \div n
       och == <<<<nseg>>, [j \in 1..Len(ich[2]) |-> ich[2][j] * n], ich[3]>>
       D == Len(ich[1])
-  IN Rule(nseg >= 1, <<nseg, s.sh[2] * n, s.sh[3]>>, och,
+  IN Rule(TRUE, <<nseg, s.sh[2] * n, s.sh[3]>>, och,
           Rec("stft", Par("stft", <<n, 1>>, <<<<0, 0, 0>>, s.sh>>), <<>>), <<>>,
           [bo \in BlockSet(och) |->
              Rec("stft", Par("stft", <<n, D>>,
@@ -443,11 +443,12 @@ Applies(s, o) ==
        [] op = "time_shift" -> s.sh[1] >= 1 /\ (Len(o.a) = 2 \/ (Len(o.a) = 1 + s.sh[2] /\ s.sh[2] > 1))
        [] op = "freq_shift" -> IsBaseband(cls) /\ s.sh[1] >= 1
        [] op = "coh_dd" -> IsBaseband(cls) /\ s.sh[1] >= 1
-       [] op = "incoh_dd" -> cls # "Signal" /\ (s.sh[2] = 1 => Arg(o, 1) = Arg(o, 2))
+       [] op = "incoh_dd" -> /\ cls # "Signal" /\ (s.sh[2] = 1 => Arg(o, 1) = Arg(o, 2))
+                             /\ s.sh[1] - (PMax(Arg(o, 1), Arg(o, 2)) - PMin(0, PMin(Arg(o, 1), Arg(o, 2)))) >= 1
        [] op = "splitcat" -> Arg(o, 2) >= 1 /\ Arg(o, 2) < s.sh[Arg(o, 1)]
        [] op = "fft_axis" -> s.sh[Arg(o, 1)] >= 1
-       [] op = "stft" -> IsBaseband(cls)
-       [] op = "istft" -> IsBaseband(cls) /\ s.sh[2] % Arg(o, 1) = 0 /\ s.meta.per % Arg(o, 1) = 0
+       [] op = "stft" -> IsBaseband(cls) /\ s.sh[1] >= Arg(o, 1)
+       [] op = "istft" -> IsBaseband(cls) /\ (s.sh[2] % Arg(o, 1)) = 0 /\ (s.meta.per % Arg(o, 1)) = 0
        [] op = "rechunk" -> TRUE
        [] op = "to_dask" -> TRUE
        [] OTHER -> FALSE
@@ -497,7 +498,7 @@ RunPlan(S, o, step) ==
        [] op = "splitcat" -> one(SplitCatRule(s, Arg(o, 1), Arg(o, 2)), "concatenate")
        [] op = "fft_axis" -> one(ColRule(s, "fft", Arg(o, 1), <<>>, "", FALSE), "fft")
        [] op = "stft" ->
-            LET n == Arg(o, 1)  keep == s.sh[1] - s.sh[1] % n
+            LET n == Arg(o, 1)  keep == s.sh[1] - (s.sh[1] % n)
             IN IF step = 1 THEN two(SliceRule(s, 1, None, keep, None, s.meta), "getitem")
                ELSE one(StftRule(s, n), "reshape")
        [] op = "istft" -> one(IstftRule(s, Arg(o, 1)), "reshape")
@@ -586,14 +587,14 @@ Container(o) ==
         /\ Log("container", o, FALSE, S2.sig, S2.g)
   /\ UNCHANGED <<phase, done, store, nexec, choices>>
 
-\* compute / persist / np.asarray start a run of the tasks the signal needs
-StartRun(mode, sch) ==
+\* compute / persist / np.asarray run the tasks the signal needs.  Which of the three it is
+\* only matters when the run ends (FinishRun), so the runs are explored once.
+StartRun(sch) ==
   /\ phase.st = "build" /\ NRuns < MaxRuns
   /\ sig.back = "dask"
-  /\ phase' = [st |-> "run", mode |-> mode, sch |-> sch, needed |-> Anc(graph, BlockTasks(sig))]
+  /\ phase' = [st |-> "run", mode |-> "", sch |-> sch, needed |-> Anc(graph, BlockTasks(sig))]
   /\ done' = {} /\ store' = <<>> /\ choices' = <<>>
-  /\ Log("run", [op |-> mode, a |-> <<>>], FALSE, sig, graph)
-  /\ UNCHANGED <<sig, graph, nexec>>
+  /\ UNCHANGED <<sig, graph, nexec, hist>>
 
 \* compute / persist of a NumPy-backed signal: "has no effect"
 RunNumpy(mode) ==
@@ -620,14 +621,14 @@ RunTask(t) ==
 Assembled == [l \in Idx(sig.sh) |->
                 LET b == <<ChunkOf(sig.ch[1], l[1]), ChunkOf(sig.ch[2], l[2]), ChunkOf(sig.ch[3], l[3])>>
                 IN store[graph[sig.blk[b]].key][V3Sub(l, BOff(sig.ch, b))]]
-FinishRun ==
+FinishRun(mode) ==
   /\ phase.st = "run"
   /\ phase.needed \subseteq done
-  /\ phase' = [phase EXCEPT !.st = "build"]
-  /\ CASE phase.mode = "compute" ->
+  /\ phase' = Idle
+  /\ (CASE mode = "compute" ->
             /\ sig' = [sig EXCEPT !.back = "np", !.ch = <<>>, !.blk = <<>>, !.val = Assembled]
             /\ graph' = graph
-       [] phase.mode = "persist" ->     \* same keys, now holding data
+       [] mode = "persist" ->     \* same keys, now holding data
             LET base == Len(graph)
                 lit(n) == LET t == sig.blk[UnRank(sig.ch, n)]
                           IN [key |-> graph[t].key, kind |-> "src", par |-> NoPar, deps |-> <<>>,
@@ -635,14 +636,17 @@ FinishRun ==
             IN /\ graph' = graph \o [n \in 1..NB(sig.ch) |-> lit(n)]
                /\ sig' = [sig EXCEPT !.blk = [b \in BlockSet(sig.ch) |-> base + Rank(sig.ch, b)]]
        [] OTHER ->                      \* np.asarray(sig): the signal itself stays lazy
-            /\ UNCHANGED <<sig, graph>>
-  /\ UNCHANGED <<done, store, nexec, hist, choices>>
+            /\ UNCHANGED <<sig, graph>>)
+  /\ hist' = Append(hist, [kind |-> "run", op |-> mode, a |-> <<>>, refused |-> FALSE, sch |-> phase.sch,
+                           pre |-> Summary(sig), post |-> Summary(sig'), ntasks |-> Cardinality(phase.needed),
+                           choices |-> choices])
+  /\ UNCHANGED <<done, store, nexec, choices>>
 
 Next ==
   \/ \E o \in Ops : Transform(o) \/ Container(o)
-  \/ \E m \in {"compute", "persist", "asarray"} : (\E sc \in Scheds : StartRun(m, sc)) \/ RunNumpy(m)
+  \/ \E sc \in Scheds : StartRun(sc)
+  \/ \E m \in {"compute", "persist", "asarray"} : RunNumpy(m) \/ FinishRun(m)
   \/ \E t \in 1..Len(graph) : RunTask(t)
-  \/ FinishRun
 Spec == Init /\ [][Next]_vars
 
 (***************************************************************************)
@@ -675,9 +679,11 @@ ContainerOnly ==
   [][/\ (hist' # hist => ContainerOnlyStep(LastKind, Summary(sig), Summary(sig')))
      /\ ((hist' # hist /\ LastKind = "container") => sig'.val = sig.val /\ sig'.back = "dask")
      /\ (phase.st = "run" /\ phase'.st = "build" =>            \* the end of a run
-           /\ ContainerOnlyStep("run", Summary(sig), Summary(sig'))
-           /\ sig'.back = (IF phase.mode = "compute" THEN "np" ELSE "dask")
-           /\ (phase.mode # "compute" => sig'.ch = sig.ch))]_vars
+           LET mode == hist'[Len(hist')].op
+           IN /\ ContainerOnlyStep("run", Summary(sig), Summary(sig'))
+              /\ sig'.val = sig.val
+              /\ sig'.back = (IF mode = "compute" THEN "np" ELSE "dask")
+              /\ (mode # "compute" => sig'.ch = sig.ch))]_vars
 RefusalsLegit == \A j \in 1..Len(hist) : RefusalStep(hist[j].op, hist[j].a, hist[j].refused, hist[j].pre)
 
 \* the blocks of a Dask-backed signal denote the value NumPy computes; a computed signal holds it
